@@ -418,6 +418,9 @@ def preconditions(c):
         return None
     if c["kind"] not in ("valid", "degenerate"):
         return None
+    # a list of designated fixed points longer than the series is refused by the library (documented): not a valid request
+    if (c.get("fpi") is not None and len(c["fpi"]) > len(c["x"])) or (c.get("fpx") is not None and len(c["fpx"]) > len(c["x"])):
+        return None
     fr = expected_fixed(c)
     if fr is None:
         return None
